@@ -13,7 +13,7 @@ REPO = os.environ.get("VERIF_REPO", "/repo")
 def run(pid, spec):
     """spec: {"name", "dir", "crate_path", "bound", "timeout"} -> dict(status, families, cmd, wall_s, output)"""
     src = os.path.join(VERIF, spec["dir"])
-    work = os.path.join(VERIF, "build", "native", spec["name"])
+    work = os.path.join(VERIF, "build", "native", "%s__%s" % (spec["name"], pid))     # per property: two checks may run at the same time
     shutil.rmtree(work, ignore_errors=True)
     os.makedirs(os.path.join(work, "src"))
     shutil.copy(os.path.join(src, "src", "main.rs"), os.path.join(work, "src", "main.rs"))
